@@ -5,6 +5,7 @@
 import G9Proofs.Lemmas.KindInv
 import G9Proofs.Lemmas.WirePack
 import G9.Version
+import G9.BufPool
 namespace G9.C12
 open G9 G9.Srv
 
@@ -175,5 +176,200 @@ theorem both_sides_agree (cm : UInt32) (cdotu : Bool) (h : 24 ≤ cm.toNat) (hs 
     rw [hduv]
     cases cdotu <;> cases cfg.srvDotu <;> simp [v_ne]
   rw [hd2]
+
+/-! ### the reply buffers (G9.BufPool): what the count guards rely on -/
+
+section Buf
+open G9.BufPool
+
+/-- every reply buffer, pooled or in use, is at least as long as the connection's msize, and the
+    msize can carry an I/O header -/
+structure BInv (s : BS) : Prop where
+  hdr : BufPool.IOHDRSZ ≤ s.msize
+  pool : ∀ b ∈ s.pool, s.msize ≤ b
+  out : ∀ b ∈ s.out, s.msize ≤ b
+
+theorem binv_init (srvMsize : Nat) (h : BufPool.IOHDRSZ ≤ srvMsize) : BInv (BS.init srvMsize) :=
+  ⟨h, by simp [BS.init], by simp [BS.init]⟩
+
+theorem binv_step (s s' : BS) (e : BEv) (h : BInv s) (hs : s.step e = some s') : BInv s' := by
+  cases e with
+  | version m =>
+    simp only [BS.step] at hs
+    split at hs
+    · have : s' = s := by simpa using hs.symm
+      subst this; exact h
+    · rename_i hm
+      have : s' = { s with msize := if m < s.msize then m else s.msize } := by simpa using hs.symm
+      subst this
+      refine ⟨?_, ?_, ?_⟩
+      · show BufPool.IOHDRSZ ≤ (if m < s.msize then m else s.msize)
+        split
+        · omega
+        · exact h.hdr
+      · intro b hb
+        show (if m < s.msize then m else s.msize) ≤ b
+        have := h.pool b hb
+        split <;> omega
+      · intro b hb
+        show (if m < s.msize then m else s.msize) ≤ b
+        have := h.out b hb
+        split <;> omega
+  | takePooled =>
+    simp only [BS.step] at hs
+    split at hs
+    · simp at hs
+    · rename_i b rest hp
+      have : s' = { s with pool := rest, out := s.out ++ [cut b s.msize] } := by simpa using hs.symm
+      subst this
+      refine ⟨h.hdr, ?_, ?_⟩
+      · intro x hx; exact h.pool x (by rw [hp]; exact List.mem_cons_of_mem _ hx)
+      · intro x hx
+        rcases List.mem_append.1 hx with hx | hx
+        · exact h.out x hx
+        · have hxe : x = cut b s.msize := by simpa using hx
+          have hb := h.pool b (by rw [hp]; simp)
+          show s.msize ≤ x
+          rw [hxe]; unfold cut; split <;> omega
+  | takeFresh =>
+    simp only [BS.step] at hs
+    split at hs
+    · have : s' = { s with out := s.out ++ [s.msize] } := by simpa using hs.symm
+      subst this
+      refine ⟨h.hdr, h.pool, ?_⟩
+      intro x hx
+      rcases List.mem_append.1 hx with hx | hx
+      · exact h.out x hx
+      · have : x = s.msize := by simpa using hx
+        show s.msize ≤ x
+        omega
+    · simp at hs
+  | give i =>
+    simp only [BS.step] at hs
+    split at hs
+    · rename_i b hb
+      split at hs
+      · have : s' = { s with pool := s.pool ++ [b], out := s.out.eraseIdx i } := by simpa using hs.symm
+        subst this
+        have hbm : b ∈ s.out := List.mem_of_getElem? hb
+        refine ⟨h.hdr, ?_, ?_⟩
+        · intro x hx
+          rcases List.mem_append.1 hx with hx | hx
+          · exact h.pool x hx
+          · have : x = b := by simpa using hx
+            subst this; exact h.out x hbm
+        · intro x hx; exact h.out x ((List.eraseIdx_sublist _ _).subset hx)
+      · simp at hs
+    · simp at hs
+  | drop i =>
+    simp only [BS.step] at hs
+    split at hs
+    · have : s' = { s with out := s.out.eraseIdx i } := by simpa using hs.symm
+      subst this
+      exact ⟨h.hdr, h.pool, fun x hx => h.out x ((List.eraseIdx_sublist _ _).subset hx)⟩
+    · simp at hs
+
+theorem binv_run (es : List BEv) (s s' : BS) (h : BInv s) (hr : s.run es = some s') : BInv s' := by
+  induction es generalizing s with
+  | nil => simp [BS.run] at hr; subst hr; exact h
+  | cons e es ih =>
+    simp only [BS.run] at hr
+    cases hst : s.step e with
+    | none => rw [hst] at hr; simp at hr
+    | some s1 => rw [hst] at hr; exact ih s1 (binv_step s s1 e h hst) (by simpa using hr)
+
+/-- Whatever the history of a connection — any number of Tversions, requests, replies, in any
+    order — the reply buffer a request is given is exactly msize bytes long at that moment… -/
+theorem taken_buffer_is_msize (srvMsize : Nat) (h0 : BufPool.IOHDRSZ ≤ srvMsize) (es : List BEv) (s s' : BS)
+    (hr : (BS.init srvMsize).run es = some s) (e : BEv) (he : e = .takePooled ∨ e = .takeFresh)
+    (hs : s.step e = some s') : s'.out = s.out ++ [s.msize] := by
+  have h := binv_run es _ s (binv_init srvMsize h0) hr
+  rcases he with rfl | rfl
+  · simp only [BS.step] at hs
+    split at hs
+    · simp at hs
+    · rename_i b rest hp
+      have : s' = { s with pool := rest, out := s.out ++ [cut b s.msize] } := by simpa using hs.symm
+      subst this
+      have hb := h.pool b (by rw [hp]; simp)
+      show s.out ++ [cut b s.msize] = s.out ++ [s.msize]
+      congr 2
+      unfold cut; split <;> omega
+  · simp only [BS.step] at hs
+    split at hs
+    · have : s' = { s with out := s.out ++ [s.msize] } := by simpa using hs.symm
+      subst this; rfl
+    · simp at hs
+
+/-- …and stays at least msize long while the request is in progress, so every count the guards
+    of srv_fcall.go let through (`count ≤ msize − BufPool.IOHDRSZ`) fits it together with the Rread
+    header (11 bytes), the Rwrite, or any other fixed part up to BufPool.IOHDRSZ. -/
+theorem admitted_count_fits (srvMsize : Nat) (h0 : BufPool.IOHDRSZ ≤ srvMsize) (es : List BEv) (s : BS)
+    (hr : (BS.init srvMsize).run es = some s) (b : Nat) (hb : b ∈ s.out) (count : Nat)
+    (hc : count ≤ s.msize - BufPool.IOHDRSZ) : count + BufPool.IOHDRSZ ≤ b ∧ count + 11 ≤ b := by
+  have h := binv_run es _ s (binv_init srvMsize h0) hr
+  have h1 := h.out b hb
+  have h2 := h.hdr
+  unfold BufPool.IOHDRSZ at *
+  omega
+
+/-- the connection's msize never grows -/
+theorem msize_never_grows (es : List BEv) (s s' : BS) (hr : s.run es = some s') : s'.msize ≤ s.msize := by
+  induction es generalizing s with
+  | nil => simp [BS.run] at hr; subst hr; exact Nat.le_refl _
+  | cons e es ih =>
+    simp only [BS.run] at hr
+    cases hst : s.step e with
+    | none => rw [hst] at hr; simp at hr
+    | some s1 =>
+      rw [hst] at hr
+      have h1 := ih s1 (by simpa using hr)
+      have h2 : s1.msize ≤ s.msize := by
+        cases e with
+        | version m =>
+          simp only [BS.step] at hst
+          split at hst
+          · have : s1 = s := by simpa using hst.symm
+            subst this; exact Nat.le_refl _
+          · have : s1 = { s with msize := if m < s.msize then m else s.msize } := by simpa using hst.symm
+            subst this
+            show (if m < s.msize then m else s.msize) ≤ s.msize
+            split <;> omega
+        | takePooled =>
+          simp only [BS.step] at hst
+          split at hst
+          · simp at hst
+          · have := (Option.some.inj hst).symm; subst this; exact Nat.le_refl _
+        | takeFresh =>
+          simp only [BS.step] at hst
+          split at hst
+          · have := (Option.some.inj hst).symm; subst this; exact Nat.le_refl _
+          · simp at hst
+        | give i =>
+          simp only [BS.step] at hst
+          split at hst
+          · split at hst
+            · have := (Option.some.inj hst).symm; subst this; exact Nat.le_refl _
+            · simp at hst
+          · simp at hst
+        | drop i =>
+          simp only [BS.step] at hst
+          split at hst
+          · have := (Option.some.inj hst).symm; subst this; exact Nat.le_refl _
+          · simp at hst
+      omega
+
+/-- Witness that the rule "a Tversion never raises the msize" carries the result: with a Tversion
+    that negotiates against the server's msize again (seeded change C06-7) a request gets a
+    64-byte buffer on a connection whose msize is 8192, and a count of 4096 passes the guard. -/
+theorem raising_version_breaks_the_fit :
+    let run := fun (s : BS) (es : List BEv) => es.foldl (fun o e => o.bind (fun s => BS.stepRaising 8192 s e)) (some s)
+    (run (BS.init 8192) [.version 64, .takeFresh, .give 0, .version 8192, .takePooled]).map (fun s => (s.msize, s.out)) =
+      some (8192, [64]) := by decide
+
+example : ((BS.init 8192).run [.version 64, .takeFresh, .give 0, .version 8192, .takePooled]).map (fun s => (s.msize, s.out)) =
+    some (64, [64]) := by decide
+
+end Buf
 
 end G9.C12
